@@ -272,7 +272,9 @@ fn run_case(dec: &str, class: &str, rng: &mut SmallRng) -> Vec<(String, Got)> {
             for (i, h) in headers.iter().enumerate() {
                 let aid = rv::auth_id(&ck, now as i64, rng.random(), false);
                 let mut wire = rv::seal_request_header(&ck, &aid, &rng.random(), h);
-                wire.extend_from_slice(&[0u8; 40]);
+                if class != "UnusualOptions" {
+                    wire.extend_from_slice(&[0u8; 40]);
+                }
                 let l = sv::listener(&sut::vmess_server_cfg(&[sut::UUID_A])).unwrap();
                 let mut codec = l.new_codec().unwrap();
                 let mut got = sut::server_decode(&mut codec, &mut BytesMut::from(&wire[..]));
